@@ -20,6 +20,14 @@ for n in sorted(os.listdir(os.path.join(ROOT, 'seeded'))):
     by = str(by).replace('\n', ' ').replace('|', '/')[:110]
     st = 'caught (failing input)' if r.get('caught') and r.get('replay_kind') == 'failing-input' else \
          'caught (no-failing-input-found)' if r.get('caught') else ('not run' if not r else 'MISSED')
+    if st == 'MISSED':
+        for f in sorted(os.listdir(d)):
+            if f.startswith('result_') and f.endswith('.json'):
+                r2 = json.load(open(os.path.join(d, f)))
+                if r2.get('caught'):
+                    st = 'not its own property\'s check, but caught by `./check %s` (failing input)' % r2['property']
+                    by = str(r2.get('replay_why') or '').replace('\n', ' ').replace('|', '/')[:110]
+                    rows_by = by
     if m.get('history'):
         st += ' ' + m['history']
     rows.append('| %s | %s | %s | %s | %s |' % (n, m.get('property'), what, st, by))
